@@ -57,9 +57,35 @@ def key_of(dbx, d, payload):
 
 
 CHILD = r"""
-import sys, json
+import sys, json, os
 sys.path.insert(0, sys.argv[1]); sys.path.insert(0, sys.argv[2])
 import logging; logging.disable(logging.CRITICAL)
+if os.environ.get("VERIF_PHANTOM_MODULES") == "1":
+    # This process pretends that every optional third-party module the LIBRARY ITSELF tries to import is installed:
+    # an import that would fail, issued from a file of the nmea2000 package, gets a stand-in module whose every
+    # attribute is a function returning a constant string. A library that behaves the same with and without its
+    # optional accelerators never notices (the pinned tree imports nothing optional).
+    import importlib.abc, importlib.machinery, types
+    PHANTOMS = []
+    class _Loader(importlib.abc.Loader):
+        def create_module(self, spec):
+            m = types.ModuleType(spec.name)
+            m.__getattr__ = lambda name, _n=spec.name: (lambda *a, **k: f"phantom:{_n}.{name}")
+            m.__path__ = []
+            return m
+        def exec_module(self, module):
+            pass
+    class _Finder(importlib.abc.MetaPathFinder):
+        def find_spec(self, name, path=None, target=None):
+            f = sys._getframe(1)
+            while f is not None and "importlib" in f.f_code.co_filename:
+                f = f.f_back
+            fn = f.f_code.co_filename if f is not None else ""
+            if os.sep + "nmea2000" + os.sep in fn and fn.startswith(os.path.realpath(sys.argv[1])):
+                PHANTOMS.append(name)
+                return importlib.machinery.ModuleSpec(name, _Loader(), is_package=True)
+            return None
+    sys.meta_path.append(_Finder())
 from nmea2000.decoder import NMEA2000Decoder
 from vf import wire
 from vf.checks.c17 import claimed_decoder
@@ -254,7 +280,7 @@ def run_shard(spec, acc):
             gen.rand_text = real_rand_text
     # second process, other hash seed
     if cross:
-        env = dict(os.environ, PYTHONHASHSEED=str(rng.randrange(1, 4000000)), PYTHONDONTWRITEBYTECODE="1")
+        env = dict(os.environ, PYTHONHASHSEED=str(rng.randrange(1, 4000000)), PYTHONDONTWRITEBYTECODE="1", VERIF_PHANTOM_MODULES="1" if spec["i"] % 2 == 0 else "0")
         inp = "\n".join(json.dumps([d.pgn, 1, p.to_bytes(nb, "little").hex()]) for d, p, nb, _ in cross)
         verif_dir = os.path.dirname(os.path.dirname(os.path.dirname(os.path.abspath(__file__))))
         try:
